@@ -66,7 +66,7 @@ def track (cfg : Cfg) (c : Nat) (p : Nat × Option Caller) (op : Op) : Nat × Op
       if c' = c then
         (p.1, match p.2 with
               | some x => some x
-              | none => some { tmo := effTimeout cfg tmo, sc := sc })
+              | none => some (newCaller (effTimeout cfg tmo) sc))
       else p
   | .poll c' => if c' = c then (p.1, p.2.map (fun x => (pollC cfg p.1 x).1)) else p
   | .drop c' => if c' = c then (p.1, p.2.map (fun x => (dropC cfg p.1 x).1)) else p
@@ -142,13 +142,15 @@ structure CInv (cfg : Cfg) (now : Nat) (x : Caller) : Prop where
     ∃ t, (t, CEv.done x.sc.out) ∈ x.hist ∧ x.doneAt ≤ t ∧ t ≤ now
   ncNoDrop : cfg.cancel = false → ∀ t, (t, CEv.dropped) ∉ x.hist
   cTimeout : cfg.cancel = true → ∀ t, (t, CEv.result .timeout) ∈ x.hist →
-    (t, CEv.dropped) ∈ x.hist ∧ x.deadline ≤ t
+    (t, CEv.dropped) ∈ x.hist ∧ x.due t
   resLate : ∀ t r, (t, CEv.result r) ∈ x.hist →
-    (x.sc.out ≠ .never ∧ x.doneAt ≤ t) ∨ x.deadline ≤ t
+    (x.sc.out ≠ .never ∧ x.doneAt ≤ t) ∨ x.due t
   resGone : ∀ t r, (t, CEv.result r) ∈ x.hist → x.outer = .gone
   /-- a timeout is reported only for a call that did not finish before its deadline -/
   toLate : ∀ t, (t, CEv.result .timeout) ∈ x.hist → x.sc.out ≠ .panic →
     (x.sc.out = .never ∨ x.deadline ≤ x.doneAt)
+  /-- … and never for a call without a deadline (timeout `Duration::MAX`) -/
+  toUnl : ∀ t, (t, CEv.result .timeout) ∈ x.hist → x.sc.out ≠ .panic → x.unl = false
 
 @[simp] theorem note_fst (now : Nat) (x : Caller) (evs : List CEv) :
     (note now x evs).1 = { x with hist := x.hist ++ evs.map (fun e => (now, e)) } := rfl
@@ -157,8 +159,15 @@ structure CInv (cfg : Cfg) (now : Nat) (x : Caller) : Prop where
 theorem resOf_ne_timeout {o : Out} (h : o ≠ .never) : resOf o ≠ .timeout := by
   cases o <;> simp_all [resOf]
 
-theorem inv_new (cfg : Cfg) (now tmo : Nat) (sc : Step) : CInv cfg now { tmo := tmo, sc := sc } := by
-  constructor <;> simp
+theorem inv_new (cfg : Cfg) (now : Nat) (tmo : Tmo) (sc : Step) : CInv cfg now (newCaller tmo sc) := by
+  constructor <;> simp [newCaller]
+
+/-- the deadline, once reached, stays reached -/
+theorem due_mono {x : Caller} {t t' : Nat} (h : x.due t) (hle : t ≤ t') : x.due t' :=
+  ⟨h.1, Nat.le_trans h.2 hle⟩
+
+theorem not_due_of_unl {x : Caller} (h : x.unl = true) (t : Nat) : ¬ x.due t := by
+  intro hd; rw [hd.1] at h; cases h
 
 theorem pollCancel_inv (cfg : Cfg) (now : Nat) (x : Caller) (hc : cfg.cancel = true)
     (h : CInv cfg now x) : CInv cfg now (pollCancel now x).1 := by
@@ -179,18 +188,22 @@ theorem pollCancel_inv (cfg : Cfg) (now : Nat) (x : Caller) (hc : cfg.cancel = t
       have ht' : (t, CEv.result .timeout) ∈ x.hist := by
         simpa [hne, Ne.symm hne] using ht
       have := h.cTimeout hc t ht'
-      exact ⟨by simp [this.1], by simpa [Caller.deadline] using this.2⟩
+      exact ⟨by simp [this.1], by simpa [Caller.due, Caller.deadline] using this.2⟩
     · intro t r ht
       have ht' : (t, CEv.result r) ∈ x.hist ∨ (t = now ∧ r = resOf x.sc.out) := by
         simpa using ht
       rcases ht' with ht' | ht'
-      · simpa [Caller.doneAt, Caller.deadline] using h.resLate t r ht'
+      · simpa [Caller.doneAt, Caller.due, Caller.deadline] using h.resLate t r ht'
       · left; rw [ht'.1]; exact ⟨hd.1, by simpa [Caller.doneAt] using hdone⟩
     · intro t r _; simp
     · intro t ht hnp
       have ht' : (t, CEv.result .timeout) ∈ x.hist := by
         simpa [hne, Ne.symm hne] using ht
       simpa [Caller.doneAt, Caller.deadline] using h.toLate t ht' hnp
+    · intro t ht hnp
+      have ht' : (t, CEv.result .timeout) ∈ x.hist := by
+        simpa [hne, Ne.symm hne] using ht
+      simpa using h.toUnl t ht' hnp
   · rename_i hnd
     split
     · rename_i hd
@@ -206,14 +219,14 @@ theorem pollCancel_inv (cfg : Cfg) (now : Nat) (x : Caller) (hc : cfg.cancel = t
           simpa using ht
         rcases ht' with ht' | ht'
         · have := h.cTimeout hc t ht'
-          exact ⟨by simp [this.1], by simpa [Caller.deadline] using this.2⟩
-        · subst ht'; exact ⟨by simp, by simpa [Caller.deadline] using hd⟩
+          exact ⟨by simp [this.1], by simpa [Caller.due, Caller.deadline] using this.2⟩
+        · subst ht'; exact ⟨by simp, by simpa [Caller.due, Caller.deadline] using hd⟩
       · intro t r ht
         have ht' : (t, CEv.result r) ∈ x.hist ∨ (t = now ∧ r = .timeout) := by
           simpa using ht
         rcases ht' with ht' | ht'
-        · simpa [Caller.doneAt, Caller.deadline] using h.resLate t r ht'
-        · right; rw [ht'.1]; simpa [Caller.deadline] using hd
+        · simpa [Caller.doneAt, Caller.due, Caller.deadline] using h.resLate t r ht'
+        · right; rw [ht'.1]; simpa [Caller.due, Caller.deadline] using hd
       · intro t r _; simp
       · intro t ht hnp
         have ht' : (t, CEv.result .timeout) ∈ x.hist ∨ t = now := by
@@ -224,8 +237,15 @@ theorem pollCancel_inv (cfg : Cfg) (now : Nat) (x : Caller) (hc : cfg.cancel = t
           · left; simpa using ho
           · right
             have h1 : ¬ x.doneAt ≤ now := fun hle => hnd ⟨ho, hle⟩
+            have hd2 : x.deadline ≤ now := hd.2
             have h2 : x.deadline ≤ x.doneAt := by omega
             simpa [Caller.doneAt, Caller.deadline] using h2
+      · intro t ht hnp
+        have ht' : (t, CEv.result .timeout) ∈ x.hist ∨ t = now := by
+          simpa using ht
+        rcases ht' with ht' | ht'
+        · simpa using h.toUnl t ht' hnp
+        · simpa using hd.1
     · exact h
 
 theorem firstPollCancel_inv (cfg : Cfg) (now : Nat) (x : Caller) (hc : cfg.cancel = true)
@@ -243,6 +263,7 @@ theorem firstPollCancel_inv (cfg : Cfg) (now : Nat) (x : Caller) (hc : cfg.cance
     · intro _ t ht; simp [begin, hh] at ht
     · intro t r ht; simp [begin, hh] at ht
     · intro t r ht; simp [begin, hh] at ht
+    · intro t ht; simp [begin, hh] at ht
     · intro t ht; simp [begin, hh] at ht
   have := pollCancel_inv cfg now _ hc hmid
   simpa [firstPollCancel] using this
@@ -273,11 +294,13 @@ theorem runTask_inv (cfg : Cfg) (now now' : Nat) (x : Caller) (hc : cfg.cancel =
       exact h.ncNoDrop hc t (by simpa using ht)
     · intro h'; exact absurd h' hct
     · intro t r ht
-      simpa [Caller.doneAt, Caller.deadline] using h.resLate t r (by simpa using ht)
+      simpa [Caller.doneAt, Caller.due, Caller.deadline] using h.resLate t r (by simpa using ht)
     · intro t r ht
       simpa using h.resGone t r (by simpa using ht)
     · intro t ht hnp
       simpa [Caller.doneAt, Caller.deadline] using h.toLate t (by simpa using ht) hnp
+    · intro t ht hnp
+      simpa using h.toUnl t (by simpa using ht) hnp
   · rename_i hd
     show CInv cfg now' x
     constructor
@@ -301,10 +324,12 @@ theorem runTask_inv (cfg : Cfg) (now now' : Nat) (x : Caller) (hc : cfg.cancel =
     · exact h.resLate
     · exact h.resGone
     · exact h.toLate
+    · exact h.toUnl
 
 theorem resolveDetached_inv (cfg : Cfg) (now : Nat) (x : Caller) (r : CRes) (hc : cfg.cancel = false)
-    (hlate : (x.sc.out ≠ .never ∧ x.doneAt ≤ now) ∨ x.deadline ≤ now)
-    (hr : r = .timeout → x.sc.out ≠ .panic → (x.sc.out = .never ∨ x.deadline ≤ x.doneAt))
+    (hlate : (x.sc.out ≠ .never ∧ x.doneAt ≤ now) ∨ x.due now)
+    (hr : r = .timeout → x.sc.out ≠ .panic →
+      (x.sc.out = .never ∨ x.deadline ≤ x.doneAt) ∧ x.unl = false)
     (h : CInv cfg now x) : CInv cfg now (note now { x with outer := .gone } [.result r]).1 := by
   have hct : ¬ cfg.cancel = true := by simp [hc]
   constructor
@@ -321,14 +346,19 @@ theorem resolveDetached_inv (cfg : Cfg) (now : Nat) (x : Caller) (r : CRes) (hc 
   · intro t r' ht
     have ht' : (t, CEv.result r') ∈ x.hist ∨ (t = now ∧ r' = r) := by simpa using ht
     rcases ht' with ht' | ht'
-    · simpa [Caller.doneAt, Caller.deadline] using h.resLate t r' ht'
-    · rw [ht'.1]; simpa [Caller.doneAt, Caller.deadline] using hlate
+    · simpa [Caller.doneAt, Caller.due, Caller.deadline] using h.resLate t r' ht'
+    · rw [ht'.1]; simpa [Caller.doneAt, Caller.due, Caller.deadline] using hlate
   · intro t r' _; simp
   · intro t ht hnp
     have ht' : (t, CEv.result .timeout) ∈ x.hist ∨ (t = now ∧ CRes.timeout = r) := by simpa using ht
     rcases ht' with ht' | ht'
     · simpa [Caller.doneAt, Caller.deadline] using h.toLate t ht' (by simpa using hnp)
-    · simpa [Caller.doneAt, Caller.deadline] using hr ht'.2.symm (by simpa using hnp)
+    · simpa [Caller.doneAt, Caller.deadline] using (hr ht'.2.symm (by simpa using hnp)).1
+  · intro t ht hnp
+    have ht' : (t, CEv.result .timeout) ∈ x.hist ∨ (t = now ∧ CRes.timeout = r) := by simpa using ht
+    rcases ht' with ht' | ht'
+    · simpa using h.toUnl t ht' (by simpa using hnp)
+    · simpa using (hr ht'.2.symm (by simpa using hnp)).2
 
 theorem resRx_timeout {o : Out} (h : resRx o = .timeout) (h1 : o ≠ .panic) : o = .never := by
   cases o <;> simp_all [resRx]
@@ -340,15 +370,16 @@ theorem pollDetached_inv (cfg : Cfg) (now : Nat) (x : Caller) (hc : cfg.cancel =
   split
   · rename_i hfin
     exact resolveDetached_inv cfg now x _ hc (Or.inl (hs.mp hfin))
-      (fun hr hnp => Or.inl (resRx_timeout hr hnp)) h
+      (fun hr hnp => absurd (resRx_timeout hr hnp) (hs.mp hfin).1) h
   · rename_i hnf
     split
     · rename_i hd
-      refine resolveDetached_inv cfg now x _ hc (Or.inr hd) (fun _ _ => ?_) h
+      refine resolveDetached_inv cfg now x _ hc (Or.inr hd) (fun _ _ => ⟨?_, hd.1⟩) h
       by_cases ho : x.sc.out = .never
       · exact Or.inl ho
       · right
         have h1 : ¬ x.doneAt ≤ now := fun hle => hnf (hs.mpr ⟨ho, hle⟩)
+        have hd2 : x.deadline ≤ now := hd.2
         omega
     · exact h
 
@@ -357,7 +388,7 @@ timeout for a zero timeout), the task not yet looked at -/
 theorem spawned_runTask_inv (cfg : Cfg) (now : Nat) (y : Caller) (hc : cfg.cancel = false)
     (hnf : y.outer ≠ .fresh) (hrun : y.inner = .running)
     (hnd : ∀ t, (t, CEv.dropped) ∉ y.hist)
-    (hres : ∀ t r, (t, CEv.result r) ∈ y.hist → y.deadline ≤ t ∧ y.outer = .gone)
+    (hres : ∀ t r, (t, CEv.result r) ∈ y.hist → y.due t ∧ y.outer = .gone)
     (hto : ∀ t, (t, CEv.result .timeout) ∈ y.hist → (y.sc.out = .never ∨ y.deadline ≤ y.doneAt)) :
     CInv cfg now (runTask now y).1 := by
   have hct : ¬ cfg.cancel = true := by simp [hc]
@@ -377,11 +408,13 @@ theorem spawned_runTask_inv (cfg : Cfg) (now : Nat) (y : Caller) (hc : cfg.cance
       exact hnd t (by simpa using ht)
     · intro h'; exact absurd h' hct
     · intro t r ht
-      right; simpa [Caller.deadline] using (hres t r (by simpa using ht)).1
+      right; simpa [Caller.due, Caller.deadline] using (hres t r (by simpa using ht)).1
     · intro t r ht
       simpa using (hres t r (by simpa using ht)).2
     · intro t ht _
       simpa [Caller.doneAt, Caller.deadline] using hto t (by simpa using ht)
+    · intro t ht _
+      simpa using (hres t _ (by simpa using ht)).1.1
   · rename_i hd
     show CInv cfg now y
     constructor
@@ -398,6 +431,7 @@ theorem spawned_runTask_inv (cfg : Cfg) (now : Nat) (y : Caller) (hc : cfg.cance
     · intro t r ht; right; exact (hres t r ht).1
     · intro t r ht; exact (hres t r ht).2
     · intro t ht _; exact hto t ht
+    · intro t ht _; exact (hres t _ ht).1.1
 
 theorem firstPollDetached_inv (cfg : Cfg) (now : Nat) (x : Caller) (hc : cfg.cancel = false)
     (hf : x.outer = .fresh) (h : CInv cfg now x) : CInv cfg now (firstPollDetached now x).1 := by
@@ -414,8 +448,8 @@ theorem firstPollDetached_inv (cfg : Cfg) (now : Nat) (x : Caller) (hc : cfg.can
       have : t = now := by
         have := ht; simp [begin, hh] at this; exact this.1
       subst this
-      simp [begin, Caller.deadline, h0]
-    · intro t _; right; simp [begin, Caller.deadline, Caller.doneAt, h0]
+      simp [begin, Caller.due, Caller.deadline, h0.1, h0.2]
+    · intro t _; right; simp [begin, Caller.deadline, Caller.doneAt, h0.2]
   · rename_i h0
     simp only []
     apply spawned_runTask_inv cfg now _ hc
@@ -456,6 +490,7 @@ theorem dropC_inv (cfg : Cfg) (now : Nat) (x : Caller) (h : CInv cfg now x) :
     · intro t r ht; simp [hh.1] at ht
     · intro t r _; simp
     · intro t ht; simp [hh.1] at ht
+    · intro t ht; simp [hh.1] at ht
   · rename_i hw
     cases hc : cfg.cancel
     · simp only [Bool.false_eq_true, if_false]
@@ -470,6 +505,7 @@ theorem dropC_inv (cfg : Cfg) (now : Nat) (x : Caller) (h : CInv cfg now x) :
       · exact h.resLate
       · intro t r _; simp
       · exact h.toLate
+      · exact h.toUnl
     · simp only [if_true]
       constructor
       · simp
@@ -480,19 +516,21 @@ theorem dropC_inv (cfg : Cfg) (now : Nat) (x : Caller) (h : CInv cfg now x) :
       · intro h'; simp [hc] at h'
       · intro _ t ht
         have := h.cTimeout hc t (by simpa using ht)
-        exact ⟨by simp [this.1], by simpa [Caller.deadline] using this.2⟩
+        exact ⟨by simp [this.1], by simpa [Caller.due, Caller.deadline] using this.2⟩
       · intro t r ht
-        simpa [Caller.doneAt, Caller.deadline] using h.resLate t r (by simpa using ht)
+        simpa [Caller.doneAt, Caller.due, Caller.deadline] using h.resLate t r (by simpa using ht)
       · intro t r _; simp
       · intro t ht hnp
         simpa [Caller.doneAt, Caller.deadline] using h.toLate t (by simpa using ht) hnp
+      · intro t ht hnp
+        simpa using h.toUnl t (by simpa using ht) hnp
   · exact h
 
 theorem inv_mono_cancel (cfg : Cfg) (now now' : Nat) (x : Caller) (hc : cfg.cancel = true)
     (h : CInv cfg now x) : CInv cfg now' x := by
   have hcf : ¬ cfg.cancel = false := by simp [hc]
   exact ⟨h.freshHist, h.started, fun h' => absurd h' hcf, fun h' => absurd h' hcf,
-    fun h' => absurd h' hcf, fun h' => absurd h' hcf, h.cTimeout, h.resLate, h.resGone, h.toLate⟩
+    fun h' => absurd h' hcf, fun h' => absurd h' hcf, h.cTimeout, h.resLate, h.resGone, h.toLate, h.toUnl⟩
 
 theorem inv_mono_idle (cfg : Cfg) (now now' : Nat) (x : Caller) (hi : x.inner = .idle)
     (h : CInv cfg now x) : CInv cfg now' x := by
@@ -507,6 +545,7 @@ theorem inv_mono_idle (cfg : Cfg) (now now' : Nat) (x : Caller) (hi : x.inner = 
   · exact h.resLate
   · exact h.resGone
   · exact h.toLate
+  · exact h.toUnl
 
 theorem advC_inv (cfg : Cfg) (now now' : Nat) (x : Caller) (hle : now ≤ now')
     (h : CInv cfg now x) : CInv cfg now' (advC cfg now' x).1 := by
@@ -574,9 +613,15 @@ theorem inv_reachable (cfg : Cfg) (ops : List Op) (c : Nat) (x : Caller)
 
 /-! ## one-step decisions of a waiting caller -/
 
-/-- the instant from which a poll resolves the call: `min(done, deadline)` -/
+/-- the instant from which a poll resolves the call: `min(done, deadline)` (for a call that has a
+deadline: `Caller.awake` is the general form) -/
 def Caller.wakeAt (x : Caller) : Nat :=
   if x.sc.out = .never then x.deadline else min x.doneAt x.deadline
+
+/-- there is something to be had from polling at `now`: the inner call has finished, or the
+deadline has been reached.  With a timeout of `Duration::MAX` only the former is possible. -/
+def Caller.awake (x : Caller) (now : Nat) : Prop :=
+  (x.sc.out ≠ .never ∧ x.doneAt ≤ now) ∨ x.due now
 
 theorem pollCancel_done (now : Nat) (x : Caller) (h1 : x.sc.out ≠ .never) (h2 : x.doneAt ≤ now) :
     pollCancel now x =
@@ -584,7 +629,7 @@ theorem pollCancel_done (now : Nat) (x : Caller) (h1 : x.sc.out ≠ .never) (h2 
   simp [pollCancel, h1, h2]
 
 theorem pollCancel_timeout (now : Nat) (x : Caller) (h1 : x.sc.out = .never ∨ now < x.doneAt)
-    (h2 : x.deadline ≤ now) :
+    (h2 : x.due now) :
     pollCancel now x = note now { x with outer := .gone, inner := .dropped } [.dropped, .result .timeout] := by
   have : ¬ (x.sc.out ≠ .never ∧ x.doneAt ≤ now) := by
     rcases h1 with h1 | h1
@@ -593,13 +638,12 @@ theorem pollCancel_timeout (now : Nat) (x : Caller) (h1 : x.sc.out = .never ∨ 
   simp [pollCancel, this, h2]
 
 theorem pollCancel_pending (now : Nat) (x : Caller) (h1 : x.sc.out = .never ∨ now < x.doneAt)
-    (h2 : now < x.deadline) : pollCancel now x = (x, []) := by
+    (h2 : ¬ x.due now) : pollCancel now x = (x, []) := by
   have : ¬ (x.sc.out ≠ .never ∧ x.doneAt ≤ now) := by
     rcases h1 with h1 | h1
     · simp [h1]
     · intro h; omega
-  have h3 : ¬ x.deadline ≤ now := by omega
-  simp [pollCancel, this, h3]
+  simp [pollCancel, this, h2]
 
 theorem pollC_waiting_cancel (cfg : Cfg) (now : Nat) (x : Caller)
     (hw : x.outer = .waiting) (hc : cfg.cancel = true) : pollC cfg now x = pollCancel now x := by
@@ -626,7 +670,7 @@ theorem pollDetached_inner (cfg : Cfg) (now : Nat) (x : Caller) (h : CInv cfg no
 
 theorem pollDetached_timeout (cfg : Cfg) (now : Nat) (x : Caller) (h : CInv cfg now x)
     (hc : cfg.cancel = false) (hw : x.outer = .waiting)
-    (h1 : x.sc.out = .never ∨ now < x.doneAt) (h2 : x.deadline ≤ now) :
+    (h1 : x.sc.out = .never ∨ now < x.doneAt) (h2 : x.due now) :
     pollDetached now x = note now { x with outer := .gone } [.result .timeout] := by
   have hf : ¬ x.inner = .finished := by
     intro hfin
@@ -638,7 +682,7 @@ theorem pollDetached_timeout (cfg : Cfg) (now : Nat) (x : Caller) (h : CInv cfg 
 
 theorem pollDetached_pending (cfg : Cfg) (now : Nat) (x : Caller) (h : CInv cfg now x)
     (hc : cfg.cancel = false) (hw : x.outer = .waiting)
-    (h1 : x.sc.out = .never ∨ now < x.doneAt) (h2 : now < x.deadline) :
+    (h1 : x.sc.out = .never ∨ now < x.doneAt) (h2 : ¬ x.due now) :
     pollDetached now x = (x, []) := by
   have hf : ¬ x.inner = .finished := by
     intro hfin
@@ -646,8 +690,7 @@ theorem pollDetached_pending (cfg : Cfg) (now : Nat) (x : Caller) (h : CInv cfg 
     rcases h1 with h1 | h1
     · exact this.1 h1
     · omega
-  have h2' : ¬ x.deadline ≤ now := by omega
-  simp [pollDetached, hf, h2']
+  simp [pollDetached, hf, h2]
 
 theorem wakeAt_le (x : Caller) (now : Nat) :
     x.wakeAt ≤ now ↔ ((x.sc.out ≠ .never ∧ x.doneAt ≤ now) ∨ x.deadline ≤ now) := by
@@ -656,20 +699,26 @@ theorem wakeAt_le (x : Caller) (now : Nat) :
   · rename_i hn; simp [hn]
   · rename_i hn; simp [hn]; omega
 
+/-- a call with a deadline: there is something to be had from `min(done, deadline)` on -/
+theorem awake_iff_wakeAt (x : Caller) (now : Nat) (hu : x.unl = false) :
+    x.awake now ↔ x.wakeAt ≤ now := by
+  rw [wakeAt_le]; simp [Caller.awake, Caller.due, hu]
+
+/-- a call without a deadline (`Duration::MAX`): only once the inner call has finished -/
+theorem awake_iff_done (x : Caller) (now : Nat) (hu : x.unl = true) :
+    x.awake now ↔ (x.sc.out ≠ .never ∧ x.doneAt ≤ now) := by
+  simp [Caller.awake, Caller.due, hu]
+
 /-- a waiting caller polled before `min(done, deadline)` stays as it is, silently -/
 theorem poll_pending (cfg : Cfg) (now : Nat) (x : Caller) (h : CInv cfg now x)
-    (hw : x.outer = .waiting) (hlt : now < x.wakeAt) : pollC cfg now x = (x, []) := by
-  have hn : ¬ x.wakeAt ≤ now := by omega
-  rw [wakeAt_le] at hn
+    (hw : x.outer = .waiting) (hn : ¬ x.awake now) : pollC cfg now x = (x, []) := by
   have h1 : x.sc.out = .never ∨ now < x.doneAt := by
     by_cases ho : x.sc.out = .never
     · exact Or.inl ho
     · right
       have : ¬ x.doneAt ≤ now := fun hle => hn (Or.inl ⟨ho, hle⟩)
       omega
-  have h2 : now < x.deadline := by
-    have : ¬ x.deadline ≤ now := fun hle => hn (Or.inr hle)
-    omega
+  have h2 : ¬ x.due now := fun hd => hn (Or.inr hd)
   cases hc : cfg.cancel
   · rw [pollC_waiting_detached cfg now x hw hc]
     exact pollDetached_pending cfg now x h hc hw h1 h2
@@ -679,10 +728,9 @@ theorem poll_pending (cfg : Cfg) (now : Nat) (x : Caller) (h : CInv cfg now x)
 /-- a waiting caller polled at or after `min(done, deadline)` resolves: its future is gone,
 the last event is its result, and no inner call is started -/
 theorem poll_resolves (cfg : Cfg) (now : Nat) (x : Caller) (h : CInv cfg now x)
-    (hw : x.outer = .waiting) (hge : x.wakeAt ≤ now) :
+    (hw : x.outer = .waiting) (hge : x.awake now) :
     (pollC cfg now x).1.outer = .gone ∧ CEv.called ∉ (pollC cfg now x).2 ∧
     ∃ pre r, (pollC cfg now x).2 = pre ++ [.result r] := by
-  rw [wakeAt_le] at hge
   by_cases hdone : x.sc.out ≠ .never ∧ x.doneAt ≤ now
   · cases hc : cfg.cancel
     · rw [pollC_waiting_detached cfg now x hw hc,
@@ -696,7 +744,7 @@ theorem poll_resolves (cfg : Cfg) (now : Nat) (x : Caller) (h : CInv cfg now x)
       · right
         have : ¬ x.doneAt ≤ now := fun hle => hdone ⟨ho, hle⟩
         omega
-    have hd : x.deadline ≤ now := by
+    have hd : x.due now := by
       rcases hge with hge | hge
       · exact absurd hge hdone
       · exact hge
@@ -929,7 +977,7 @@ theorem stepS_hil (cfg : Cfg) (s : State) (op : Op) (h : HistInLog s) : HistInLo
         simp [hx1] at hl
         obtain ⟨_, hl⟩ := hl
         subst hl
-        simp at hm
+        simp [newCaller] at hm
   | poll c' => exact applyC_hil s c' s.now _ (fun x => pollC_lock cfg s.now x) h
   | drop c' => exact applyC_hil s c' s.now _ (fun x => dropC_lock cfg s.now x) h
 
@@ -1073,12 +1121,13 @@ theorem newEvents_adv_mem (cfg : Cfg) (s : State) (ms c : Nat) (x : Caller) (e :
   exact mem_dueEvents cfg (s.now + ms) s.kOf s.callers c x e (mem_of_lookup hx) he
 
 theorem runTask_fields (now : Nat) (y : Caller) :
-    (runTask now y).1.start = y.start ∧ (runTask now y).1.tmo = y.tmo ∧ (runTask now y).1.sc = y.sc := by
+    (runTask now y).1.start = y.start ∧ (runTask now y).1.tmo = y.tmo ∧ (runTask now y).1.sc = y.sc ∧
+    (runTask now y).1.unl = y.unl := by
   unfold runTask; split <;> simp
 
 theorem pollCancel_fields (now : Nat) (y : Caller) :
     (pollCancel now y).1.start = y.start ∧ (pollCancel now y).1.tmo = y.tmo ∧
-    (pollCancel now y).1.sc = y.sc := by
+    (pollCancel now y).1.sc = y.sc ∧ (pollCancel now y).1.unl = y.unl := by
   unfold pollCancel
   split
   · simp
@@ -1087,7 +1136,8 @@ theorem pollCancel_fields (now : Nat) (y : Caller) :
 /-- the first poll: the inner service is called and the deadline armed, at that instant -/
 theorem firstPoll_fields (cfg : Cfg) (now : Nat) (x : Caller) (hf : x.outer = .fresh) :
     (pollC cfg now x).1.start = now ∧ (pollC cfg now x).1.tmo = x.tmo ∧
-    (pollC cfg now x).1.sc = x.sc ∧ CEv.called ∈ (pollC cfg now x).2 := by
+    (pollC cfg now x).1.sc = x.sc ∧ CEv.called ∈ (pollC cfg now x).2 ∧
+    (pollC cfg now x).1.unl = x.unl := by
   unfold pollC
   simp only [hf]
   cases cfg.cancel
@@ -1097,21 +1147,21 @@ theorem firstPoll_fields (cfg : Cfg) (now : Nat) (x : Caller) (hf : x.outer = .f
     · have h := runTask_fields now (note now (expire now (begin now x)).1 [.called]).1
       simp only []
       refine ⟨by rw [h.1]; simp [expire, begin], by rw [h.2.1]; simp [expire, begin],
-        by rw [h.2.2]; simp [expire, begin], by simp [expire]⟩
+        by rw [h.2.2.1]; simp [expire, begin], by simp [expire], by rw [h.2.2.2]; simp [expire, begin]⟩
     · have h := runTask_fields now (note now (begin now x) [.called]).1
       simp only []
       refine ⟨by rw [h.1]; simp [begin], by rw [h.2.1]; simp [begin],
-        by rw [h.2.2]; simp [begin], by simp⟩
+        by rw [h.2.2.1]; simp [begin], by simp, by rw [h.2.2.2]; simp [begin]⟩
   · simp only [if_true]
     have h := pollCancel_fields now (note now (begin now x) [.called]).1
     simp only [firstPollCancel]
     refine ⟨by rw [h.1]; simp [begin], by rw [h.2.1]; simp [begin],
-      by rw [h.2.2]; simp [begin], by simp⟩
+      by rw [h.2.2.1]; simp [begin], by simp, by rw [h.2.2.2]; simp [begin]⟩
 
-theorem recordAfter_arrive_new (cfg : Cfg) (s : State) (c : Nat) (tmo : Option Nat) (sc : Step)
+theorem recordAfter_arrive_new (cfg : Cfg) (s : State) (c : Nat) (tmo : Option Tmo) (sc : Step)
     (hnew : lookup s.callers c = none) :
     recordAfter cfg s (.arrive c tmo sc) c
-      = some { tmo := if cfg.dyn then tmo.getD cfg.timeout else cfg.timeout, sc := sc } := by
+      = some (newCaller (if cfg.dyn then tmo.getD cfg.timeout else cfg.timeout) sc) := by
   simp [recordAfter, stepS, hnew, lookup_snoc, effTimeout]
 
 /-- a poll that starts the inner call gives it the next serial -/
